@@ -1790,6 +1790,10 @@ fn split_macro_args(mac: &syn::Macro) -> Vec<String> {
                 out.push(cur.trim().to_string());
                 cur.clear();
             }
+            TokenTree::Punct(p) if p.spacing() == proc_macro2::Spacing::Joint => {
+                // `<=`, `==`, `&&`, `->` ... : the characters of one operator stay together
+                cur.push(p.as_char());
+            }
             _ => {
                 cur.push_str(&tt.to_string());
                 // keep `&x` and `a.b` readable: only add a space after idents/literals when needed
